@@ -157,7 +157,7 @@ CLAIMED = {
              'arguments (constant argument indices within the required arity or under an args.len() test / args.get, to_primitive!/to_native! '
              'downcasts equal to the declared parameter type class, constructed result variants equal to the declared primitive return type): '
              '~800 facts; every explicit panic of the evaluator listed with the checker obligation that discharges it; every checked unsigned '
-             'subtraction in builtins guarded by a dominating comparison of the same operands (in the body, or at every call site of a private helper) or listed with a reason (and, where the reason is '
+             'subtraction in builtins (the MIR operator, and the same arithmetic written on references, which is a call of the core::ops impl) guarded by a dominating comparison of the same operands (in the body, or at every call site of a private helper), computed on operands widened from a narrower type, or listed with a reason (and, where the reason is '
              'a match arm, revalidated structurally); list-shaped owning links have an iterative Drop; machine arithmetic on the small integer form that can overflow ((i64::MIN,-1), '
              '-i64::MIN; operators and the division-family methods) is excluded by an earlier match arm; get_func_with_type, evaluated abstractly, accepts a '
              'callback only when its return type equals the expected one (natives downcast callback results by that type). NOT decided: soundness of the type rules '
